@@ -222,6 +222,11 @@ def check_axis_table(ctx):
                     return bc
                 if e.attr == "treepath":
                     return None
+            # a condition about something other than this axis (a lazily initialised scratch value ...):
+            # both outcomes are explored
+            mentioned = {x.id for x in ast.walk(e) if isinstance(x, ast.Name)}
+            if not (mentioned & ({dvar, svar, memo} | evalvars | {v for v in lookvars if not v.startswith("!")})):
+                return None
             raise AnalysisError(f"C01.2: unrecognised condition `{t}` in the per-axis check")
 
         def test_oracle(node):
